@@ -33,7 +33,7 @@ block = [f"{missed_first} of the {len(metas)} changes escaped the checks as they
          "further dimension of the space, a finer canonical state key or a harness repair - never to a looser oracle.  "
          f"{own} are now",
          f"reported by the check of their own property, {neigh} by the check of a neighbouring property in whose space the mechanism",
-         f"lies (named in the table), and {out} ({', '.join(outs)}) lie outside the property's domain (see their verdicts).", "",
+         f"lies (named in the table), and {out} ({', '.join(outs)}) are not reported: they lie outside the property's domain or outside what the checks drive (see their verdicts).", "",
          "`first`: result of the first run of the quick check as it stood (n/m = not measured, fault = harness fault).", "",
          "| seed | reported by (quick tier) | first | what was strengthened / verdict |", "|---|---|---|---|"] + rows
 text = "\n".join(block)
